@@ -78,14 +78,13 @@ def canon(t: Any) -> Any:
     return TM.tmap(f, t)
 
 
-def run_quantise(repo: Repo, rounding: Any, srbits: Any, e: Any = E, m: Any = M) -> Tuple[Any, List[Event], Interp, Optional[str]]:
+def run_quantise(repo: Repo, rounding: Any, srbits: Any, e: Any = E, m: Any = M, shape: Any = None) -> Tuple[Any, List[Event], Interp, Optional[str]]:
     it = Interp(repo)
     fobj = mkformat(it, rounding, srbits, e, m)
     q = it.class_attr(fobj.cls, "quantise")
     if not isinstance(q, FuncV):
         raise AnalysisError("anchor vanished: FPFormat.quantise")
-    x = P("x", None)
-    x.shape = None
+    x = P("x", shape)
     try:
         res = it.call_function(q, [fobj, x], {})
     except Unsupported as ex:
@@ -93,10 +92,10 @@ def run_quantise(repo: Repo, rounding: Any, srbits: Any, e: Any = E, m: Any = M)
     return res, list(it.events), it, None
 
 
-def ref_term(it: Interp, mode: str, srbits: Any, nearest_offset: Any, e: Any = E, m: Any = M) -> Any:
+def ref_term(it: Interp, mode: str, srbits: Any, nearest_offset: Any, e: Any = E, m: Any = M, shape: Any = None) -> Any:
     ref = oracle_function(it, "ref_quantise", REF, std_globals(it))
     sub = {E: e, M: m}
-    x = P("x", None)
+    x = P("x", shape)
     sbar = 23 - m - srbits if mode == "stochastic" else 0
     return it.call_function(
         ref,
